@@ -18,7 +18,7 @@ ANCHORS = ["occupancy_shape_from_state", "DynamicObstacle.occupancy_at_time", "D
            "TrajectoryPrediction._create_occupancy_set", "Scenario.occupancies_at_time_step",
            "Scenario.obstacle_states_at_time_step", "Scenario.obstacles_by_role_and_type",
            "Scenario.obstacles_by_position_intervals"]
-REQUIRED = ["set.intervals-sharing-a-step", "requery-after.trajectory.translate_rotate", "requery-after.prediction.shape=", "role.static", "role.dynamic", "role.phantom", "role.environment", "pred.trajectory", "pred.gap", "pred.set",
+REQUIRED = ["requery-after.static.obstacle.translate_rotate", "set.intervals-sharing-a-step", "requery-after.trajectory.translate_rotate", "requery-after.prediction.shape=", "role.static", "role.dynamic", "role.phantom", "role.environment", "pred.trajectory", "pred.gap", "pred.set",
             "pred.set-interval", "pred.none", "pred.overlap", "state.PMState", "state.KSState", "state.MBState", "state.CustomState",
             "exact-placement.Rectangle", "exact-placement.Circle", "exact-placement.Polygon",
             "exact-placement.ShapeGroup", "uncertain-position.Rectangle", "uncertain-position.Circle",
@@ -233,6 +233,23 @@ def run(ctx):
                     ob.occupancy_at_time(t)
             except Exception as e:  # noqa
                 ctx.violation("C04/requery-after/%s/raises-%s" % (op, type(e).__name__), repr(e)[:200],
+                              {"role": role, "desc": desc})
+        # the same for static obstacles: moved through their own method / given a new initial state, then asked again
+        if role == "static":
+            op = ["obstacle.translate_rotate", "initial_state=", "obstacle.translate_rotate-zero-translation"][(i // 6) % 3]
+            ctx.feature("requery-after.static." + op)
+            try:
+                an = rng.choice([0.03, 1.0, -2.5, math.pi / 2])
+                if op == "initial_state=":
+                    ob.initial_state = ob.initial_state.translate_rotate(np.array([3.0, -2.0]), an)
+                else:
+                    ob.translate_rotate(np.array([0.0, 0.0]) if op.endswith("zero-translation") else
+                                        np.array([rng.uniform(-20, 20), rng.uniform(-20, 20)]), an)
+                for t in (0, 3):
+                    ctx.evaluation()
+                    ob.occupancy_at_time(t)
+            except Exception as e:  # noqa
+                ctx.violation("C04/requery-after/static/%s/raises-%s" % (op, type(e).__name__), repr(e)[:200],
                               {"role": role, "desc": desc})
         # static: same region at all times
         if role == "static":
